@@ -19,10 +19,19 @@ type Memory struct {
 }
 
 // newMemory creates a new memory structure. This method return an error if
-// blocks overlap.
+// blocks overlap or if the exclusive end of a block is not representable as an
+// address.
 func newMemory(bs []Block) (*Memory, error) {
 	if len(bs) == 0 {
 		return &Memory{}, nil
+	}
+
+	for i, b := range bs {
+		if b.End() < b.Begin() {
+			return nil, fmt.Errorf(
+				"block %d [0x%x, +%d) exceeds the address space",
+				i, b.Begin(), b.Len())
+		}
 	}
 
 	sort.Slice(bs, func(i, j int) bool { return bs[i].Begin() < bs[j].Begin() })
